@@ -13,26 +13,337 @@ def Inv (c : Cache K V) (now : Nat) : Prop :=
   (c.entries.map (·.1)).Nodup ∧ (c.entries.map (·.2.2)).Pairwise (· ≤ ·) ∧
   ∀ e ∈ c.entries, e.2.2 ≤ now
 
-theorem inv_empty (ttl now : Nat) : Inv (empty ttl : Cache K V) now := by
-  sorry
 
+/-! ### list-level helpers -/
+
+/-- `find` at the level of the entry list -/
+def lfind (l : List (K × V × Nat)) (k : K) : Option (V × Nat) :=
+  (l.find? (fun e => e.1 = k)).map (·.2)
+
+theorem find_eq_lfind (c : Cache K V) (k : K) : find c k = lfind c.entries k := rfl
+
+theorem lfind_nil (k : K) : lfind ([] : List (K × V × Nat)) k = none := rfl
+
+theorem lfind_cons (e : K × V × Nat) (l : List (K × V × Nat)) (k : K) :
+    lfind (e :: l) k = if e.1 = k then some e.2 else lfind l k := by
+  unfold lfind
+  rw [List.find?_cons]
+  by_cases h : e.1 = k <;> simp [h]
+
+theorem lfind_some_mem {l : List (K × V × Nat)} {k : K} {p : V × Nat}
+    (h : lfind l k = some p) : (k, p) ∈ l := by
+  induction l with
+  | nil => simp [lfind_nil] at h
+  | cons e l ih =>
+    rw [lfind_cons] at h
+    by_cases he : e.1 = k
+    · simp [he] at h
+      have : e = (k, p) := by rw [← he, ← h]
+      simp [this]
+    · simp [he] at h
+      exact List.mem_cons_of_mem _ (ih h)
+
+theorem lfind_none_of_not_mem {l : List (K × V × Nat)} {k : K}
+    (h : k ∉ l.map (·.1)) : lfind l k = none := by
+  induction l with
+  | nil => rfl
+  | cons e l ih =>
+    rw [lfind_cons]
+    simp only [List.map_cons, List.mem_cons, not_or] at h
+    have h1 : ¬ e.1 = k := fun h' => h.1 h'.symm
+    simp [h1, ih h.2]
+
+/-- find in `filter (key ≠ k) ++ [(k, v, now)]` -/
+theorem lfind_filter_append (l : List (K × V × Nat)) (k k' : K) (v : V) (now : Nat) :
+    lfind (l.filter (fun e' => e'.1 ≠ k) ++ [(k, v, now)]) k' =
+      if k' = k then some (v, now) else lfind l k' := by
+  induction l with
+  | nil =>
+    simp only [List.filter_nil, List.nil_append, lfind_cons, lfind_nil]
+    by_cases h : k' = k
+    · simp [h]
+    · have : ¬ k = k' := fun h' => h h'.symm
+      simp [h, this]
+  | cons e l ih =>
+    by_cases he : e.1 = k
+    · have : (e :: l).filter (fun e' => e'.1 ≠ k) = l.filter (fun e' => e'.1 ≠ k) := by
+        simp [he]
+      rw [this, ih, lfind_cons]
+      by_cases h : k' = k
+      · simp [h]
+      · have : ¬ e.1 = k' := fun h' => h (h'.symm.trans he)
+        simp [h, this]
+    · have : (e :: l).filter (fun e' => e'.1 ≠ k) = e :: l.filter (fun e' => e'.1 ≠ k) := by
+        simp [he]
+      rw [this, List.cons_append, lfind_cons, lfind_cons, ih]
+      by_cases h : k' = k
+      · subst h
+        simp [he]
+      · simp [h]
+
+/-- find after `store` -/
+theorem lfind_store (l : List (K × V × Nat)) (k k' : K) (v : V) :
+    lfind (l.map (fun e => if e.1 = k then (e.1, v, e.2.2) else e)) k' =
+      if k' = k then (lfind l k).map (fun p => (v, p.2)) else lfind l k' := by
+  induction l with
+  | nil => simp [lfind_nil]
+  | cons e l ih =>
+    rw [List.map_cons, lfind_cons, ih]
+    simp only [lfind_cons]
+    by_cases he : e.1 = k
+    · by_cases h : k' = k
+      · subst h; simp [he]
+      · have : ¬ e.1 = k' := fun h' => h (h'.symm.trans he)
+        have : ¬ k = k' := fun h' => h h'.symm
+        simp [*]
+    · by_cases h : k' = k
+      · subst h; simp [he]
+      · simp [he, h]
+
+omit [DecidableEq K] in
+theorem dropWhile_all_alive (ttl now : Nat) (l : List (K × V × Nat))
+    (h : ∀ e ∈ l, alive ttl now e.2.2 = true) :
+    l.dropWhile (fun e => !alive ttl now e.2.2) = l := by
+  cases l with
+  | nil => rfl
+  | cons e l => simp [h e (List.mem_cons_self ..)]
+
+omit [DecidableEq K] in
+theorem alive_of_sorted_cons (ttl now : Nat) (e : K × V × Nat) (l : List (K × V × Nat))
+    (hs : ((e :: l).map (·.2.2)).Pairwise (· ≤ ·)) (ha : alive ttl now e.2.2 = true) :
+    ∀ e' ∈ e :: l, alive ttl now e'.2.2 = true := by
+  intro e' he'
+  rw [List.map_cons, List.pairwise_cons] at hs
+  rcases List.mem_cons.1 he' with rfl | hm
+  · exact ha
+  · have := hs.1 e'.2.2 (List.mem_map.2 ⟨e', hm, rfl⟩)
+    simp [alive] at ha ⊢
+    omega
+
+omit [DecidableEq K] in
+theorem dropWhile_alive (ttl now : Nat) (l : List (K × V × Nat))
+    (hs : (l.map (·.2.2)).Pairwise (· ≤ ·)) :
+    ∀ e ∈ l.dropWhile (fun e => !alive ttl now e.2.2), alive ttl now e.2.2 = true := by
+  induction l with
+  | nil => simp
+  | cons e l ih =>
+    by_cases ha : alive ttl now e.2.2 = true
+    · have : (e :: l).dropWhile (fun e => !alive ttl now e.2.2) = e :: l := by
+        simp [ha]
+      rw [this]
+      exact alive_of_sorted_cons ttl now e l hs ha
+    · have : (e :: l).dropWhile (fun e => !alive ttl now e.2.2) =
+          l.dropWhile (fun e => !alive ttl now e.2.2) := by
+        simp [ha]
+      rw [this]
+      rw [List.map_cons, List.pairwise_cons] at hs
+      exact ih hs.2
+
+theorem lfind_dropWhile (ttl now : Nat) (k : K) (l : List (K × V × Nat))
+    (hnd : (l.map (·.1)).Nodup) (hs : (l.map (·.2.2)).Pairwise (· ≤ ·)) :
+    lfind (l.dropWhile (fun e => !alive ttl now e.2.2)) k =
+      (lfind l k).filter (fun p => alive ttl now p.2) := by
+  induction l with
+  | nil => rfl
+  | cons e l ih =>
+    by_cases ha : alive ttl now e.2.2 = true
+    · have : (e :: l).dropWhile (fun e => !alive ttl now e.2.2) = e :: l := by
+        simp [ha]
+      rw [this]
+      cases hf : lfind (e :: l) k with
+      | none => rfl
+      | some p =>
+        have := alive_of_sorted_cons ttl now e l hs ha _ (lfind_some_mem hf)
+        simp at this
+        simp [Option.filter, this]
+    · have : (e :: l).dropWhile (fun e => !alive ttl now e.2.2) =
+          l.dropWhile (fun e => !alive ttl now e.2.2) := by
+        simp [ha]
+      rw [this]
+      rw [List.map_cons, List.pairwise_cons] at hs
+      rw [List.map_cons, List.nodup_cons] at hnd
+      rw [ih hnd.2 hs.2, lfind_cons]
+      by_cases he : e.1 = k
+      · rw [lfind_none_of_not_mem (he ▸ hnd.1)]
+        simp [he, Option.filter, ha]
+      · simp [he]
+
+/-! ### cache-level characterisations -/
+
+theorem find_removeExpired (c : Cache K V) (k : K) (now : Nat) (h : Inv c now) :
+    find (removeExpired c now) k = (find c k).filter (fun p => alive c.ttl now p.2) :=
+  lfind_dropWhile c.ttl now k c.entries h.1 h.2.1
+
+omit [DecidableEq K] in
+theorem removeExpired_alive (c : Cache K V) (now : Nat) (h : Inv c now) :
+    ∀ e ∈ (removeExpired c now).entries, alive c.ttl now e.2.2 = true :=
+  dropWhile_alive c.ttl now c.entries h.2.1
+
+omit [DecidableEq K] in
+theorem removeExpired_sublist (c : Cache K V) (now : Nat) :
+    (removeExpired c now).entries.Sublist c.entries :=
+  (List.dropWhile_suffix _).sublist
+
+theorem touch_of_find (c : Cache K V) (k : K) (v : V) (t now : Nat)
+    (hf : find c k = some (v, t)) :
+    touch c k now = ⟨c.entries.filter (fun e' => e'.1 ≠ k) ++ [(k, v, now)], c.ttl⟩ := by
+  unfold find at hf
+  unfold touch
+  cases he : c.entries.find? (fun e => e.1 = k) with
+  | none => simp [he] at hf
+  | some e =>
+    simp [he] at hf
+    simp [hf]
+
+theorem peek_eq (c : Cache K V) (k : K) (now : Nat) :
+    peek c k now = ((find c k).filter (fun p => alive c.ttl now p.2)).map (·.1) := by
+  unfold peek
+  cases hf : find c k with
+  | none => rfl
+  | some p =>
+    obtain ⟨v, t⟩ := p
+    by_cases ha : alive c.ttl now t = true <;> simp [Option.filter, ha]
+
+/-- the cache after `entry(k).or_insert(d)` at `now` -/
+theorem entry_char (c : Cache K V) (k : K) (d : V) (now : Nat) (h : Inv c now) :
+    entryOrInsert c k d now =
+      (⟨(removeExpired c now).entries.filter (fun e' => e'.1 ≠ k) ++
+          [(k, (peek c k now).getD d, now)], c.ttl⟩, (peek c k now).getD d) := by
+  have hfr := find_removeExpired c k now h
+  have hpk := peek_eq c k now
+  unfold entryOrInsert
+  cases hp : peek c k now with
+  | some v0 =>
+    rw [hp] at hpk
+    cases hf : find c k with
+    | none => simp [hf, Option.filter] at hpk
+    | some p =>
+      obtain ⟨v, t⟩ := p
+      by_cases ha : alive c.ttl now t = true
+      · simp [hf, Option.filter, ha] at hpk hfr
+        subst hpk
+        have ht := touch_of_find (removeExpired c now) k v0 t now hfr
+        simp only [notifyGetMut, hfr, ht, Option.getD_some]
+        rfl
+      · simp [hf, Option.filter, ha] at hpk
+  | none =>
+    have hall : ∀ e ∈ (notifyInsert c k d now).entries, alive c.ttl now e.2.2 = true := by
+      intro e he
+      simp only [notifyInsert, List.mem_append, List.mem_filter, List.mem_singleton] at he
+      rcases he with ⟨he, _⟩ | rfl
+      · exact removeExpired_alive c now h e he
+      · simp [alive]
+    have hre : removeExpired (notifyInsert c k d now) now = notifyInsert c k d now := by
+      show (⟨_, _⟩ : Cache K V) = _
+      rw [show (notifyInsert c k d now).ttl = c.ttl from rfl, dropWhile_all_alive c.ttl now _ hall]
+      rfl
+    have hfi : find (notifyInsert c k d now) k = some (d, now) := by
+      rw [find_eq_lfind]
+      show lfind (_ ++ [(k, d, now)]) k = _
+      rw [lfind_filter_append]; simp
+    have ht := touch_of_find (notifyInsert c k d now) k d now now hfi
+    simp only [notifyGetMut, hre, hfi, ht, Option.getD_none]
+    simp [notifyInsert, List.filter_append, List.filter_filter]
+    rfl
+
+theorem inv_filter_append (c : Cache K V) (l : List (K × V × Nat)) (k : K) (v : V)
+    (now ttl : Nat) (h : Inv c now) (hl : l.Sublist c.entries) :
+    Inv ⟨l.filter (fun e' => e'.1 ≠ k) ++ [(k, v, now)], ttl⟩ now := by
+  have hsub : (l.filter (fun e' => e'.1 ≠ k)).Sublist c.entries :=
+    (List.filter_sublist).trans hl
+  have hb : ∀ e ∈ l.filter (fun e' => e'.1 ≠ k), e.2.2 ≤ now :=
+    fun e he => h.2.2 e (hsub.subset he)
+  refine ⟨?_, ?_, ?_⟩
+  · show ((l.filter (fun e' => e'.1 ≠ k) ++ [(k, v, now)]).map (·.1)).Nodup
+    rw [List.map_append, List.nodup_append]
+    refine ⟨h.1.sublist (hsub.map _), by simp, ?_⟩
+    intro a ha b hb
+    simp only [List.map_cons, List.map_nil, List.mem_singleton] at hb
+    subst hb
+    simp only [List.mem_map, List.mem_filter] at ha
+    obtain ⟨e, ⟨_, hne⟩, rfl⟩ := ha
+    simpa using hne
+  · show ((l.filter (fun e' => e'.1 ≠ k) ++ [(k, v, now)]).map (·.2.2)).Pairwise (· ≤ ·)
+    rw [List.map_append, List.pairwise_append]
+    refine ⟨h.2.1.sublist (hsub.map _), by simp, ?_⟩
+    intro a ha b hb'
+    simp only [List.map_cons, List.map_nil, List.mem_singleton] at hb'
+    subst hb'
+    obtain ⟨e, he, rfl⟩ := List.mem_map.1 ha
+    exact hb e he
+  · intro e he
+    rcases List.mem_append.1 he with he | he
+    · exact hb e he
+    · simp only [List.mem_singleton] at he
+      subst he
+      exact Nat.le_refl _
+
+theorem store_map_fst (c : Cache K V) (k : K) (v : V) :
+    (store c k v).entries.map (·.1) = c.entries.map (·.1) := by
+  unfold store
+  simp only [List.map_map]
+  apply List.map_congr_left
+  intro e _
+  by_cases he : e.1 = k <;> simp [he]
+
+theorem store_map_time (c : Cache K V) (k : K) (v : V) :
+    (store c k v).entries.map (·.2.2) = c.entries.map (·.2.2) := by
+  unfold store
+  simp only [List.map_map]
+  apply List.map_congr_left
+  intro e _
+  by_cases he : e.1 = k <;> simp [he]
+
+theorem mem_store_time (c : Cache K V) (k : K) (v : V) (e : K × V × Nat)
+    (he : e ∈ (store c k v).entries) : ∃ e0 ∈ c.entries, e.2.2 = e0.2.2 := by
+  unfold store at he
+  obtain ⟨e0, he0, rfl⟩ := List.mem_map.1 he
+  refine ⟨e0, he0, ?_⟩
+  by_cases h : e0.1 = k <;> simp [h]
+
+theorem find_store_entry (c : Cache K V) (k k' : K) (d v : V) (now : Nat) (h : Inv c now) :
+    find (store (entryOrInsert c k d now).1 k v) k' =
+      if k' = k then some (v, now) else find (removeExpired c now) k' := by
+  rw [entry_char c k d now h, find_eq_lfind]
+  show lfind (List.map _ (_ ++ [(k, (peek c k now).getD d, now)])) k' = _
+  rw [lfind_store]
+  simp only [lfind_filter_append]
+  by_cases hk : k' = k
+  · simp [hk]
+  · simp only [if_neg hk]; rfl
+
+theorem store_entry_ttl (c : Cache K V) (k : K) (d v : V) (now : Nat) (h : Inv c now) :
+    (store (entryOrInsert c k d now).1 k v).ttl = c.ttl := by
+  rw [entry_char c k d now h]; rfl
+
+omit [DecidableEq K] in
+theorem inv_empty (ttl now : Nat) : Inv (empty ttl : Cache K V) now := by
+  exact ⟨List.nodup_nil, List.Pairwise.nil, fun e he => by cases he⟩
+
+omit [DecidableEq K] in
 /-- the invariant survives the passage of time -/
 theorem inv_mono (c : Cache K V) (now now' : Nat) (h : Inv c now) (hle : now ≤ now') : Inv c now' := by
-  sorry
+  exact ⟨h.1, h.2.1, fun e he => Nat.le_trans (h.2.2 e he) hle⟩
 
 theorem entry_inv (c : Cache K V) (k : K) (d : V) (now : Nat) (h : Inv c now) :
     Inv (entryOrInsert c k d now).1 now ∧ (entryOrInsert c k d now).1.ttl = c.ttl := by
-  sorry
+  rw [entry_char c k d now h]
+  exact ⟨inv_filter_append c _ k _ now c.ttl h (removeExpired_sublist c now), rfl⟩
 
 theorem store_inv (c : Cache K V) (k : K) (v : V) (now : Nat) (h : Inv c now) :
     Inv (store c k v) now ∧ (store c k v).ttl = c.ttl := by
-  sorry
+  refine ⟨⟨?_, ?_, ?_⟩, rfl⟩
+  · rw [store_map_fst]; exact h.1
+  · rw [store_map_time]; exact h.2.1
+  · intro e he
+    obtain ⟨e0, he0, heq⟩ := mem_store_time c k v e he
+    rw [heq]; exact h.2.2 e0 he0
 
 /-- `entry(..).or_insert(default)` hands out the live value, or the default when
 the key is absent or its entry has been idle for longer than the expiry time -/
 theorem entry_value (c : Cache K V) (k : K) (d : V) (now : Nat) (h : Inv c now) :
     (entryOrInsert c k d now).2 = (peek c k now).getD d := by
-  sorry
+  rw [entry_char c k d now h]
 
 /-- after `entry` + `store` the key holds the stored value, touched at `now`:
 it is visible exactly until `now + ttl` -/
@@ -40,31 +351,63 @@ theorem peek_after_store_self (c : Cache K V) (k : K) (d v : V) (now now' : Nat)
     (h : Inv c now) (hle : now ≤ now') :
     peek (store (entryOrInsert c k d now).1 k v) k now' =
       if now' ≤ now + c.ttl then some v else none := by
-  sorry
+  have _ := hle
+  rw [peek_eq, find_store_entry c k k d v now h, store_entry_ttl c k d v now h]
+  by_cases hn : now' ≤ now + c.ttl
+  · simp [Option.filter, alive, hn]
+  · simp [Option.filter, alive, hn]
 
 /-- retention / frame: a use of the cache for key `k` at `now` leaves the
 effective entry of every other key unchanged, at `now` and at all later times -/
 theorem peek_after_store_other (c : Cache K V) (k k' : K) (d v : V) (now now' : Nat)
     (h : Inv c now) (hne : k' ≠ k) (hle : now ≤ now') :
     peek (store (entryOrInsert c k d now).1 k v) k' now' = peek c k' now' := by
-  sorry
+  rw [peek_eq, find_store_entry c k k' d v now h, store_entry_ttl c k d v now h, if_neg hne,
+    find_removeExpired c k' now h, peek_eq c k' now']
+  cases hf : find c k' with
+  | none => rfl
+  | some p =>
+    by_cases ha : alive c.ttl now p.2 = true
+    · simp [Option.filter, ha]
+    · have ha' : alive c.ttl now' p.2 = false := by
+        simp [alive] at ha ⊢; omega
+      simp [Option.filter, ha, ha']
 
 /-- expiry: an entry idle for longer than `ttl` is never seen again -/
 theorem peek_expired (c : Cache K V) (k : K) (v : V) (t now : Nat)
     (hf : find c k = some (v, t)) (hexp : t + c.ttl < now) : peek c k now = none := by
-  sorry
+  unfold peek
+  rw [hf]
+  have : alive c.ttl now t = false := by simp [alive]; omega
+  simp [this]
 
 /-- reclamation: after any use of the cache at `now`, no physical entry that had
 expired by `now` remains (this is where sortedness matters: `remove_expired`
 stops at the first live entry) -/
 theorem reclaimed (c : Cache K V) (k : K) (d v : V) (now : Nat) (h : Inv c now) :
     ∀ e ∈ (store (entryOrInsert c k d now).1 k v).entries, now ≤ e.2.2 + c.ttl := by
-  sorry
+  intro e he
+  obtain ⟨e0, he0, heq⟩ := mem_store_time _ k v e he
+  rw [heq]
+  rw [entry_char c k d now h] at he0
+  rcases List.mem_append.1 he0 with he0 | he0
+  · have := removeExpired_alive c now h e0 (List.mem_filter.1 he0).1
+    simpa [alive] using this
+  · simp only [List.mem_singleton] at he0
+    subst he0
+    exact Nat.le_add_right _ _
 
 /-- the number of physical entries never exceeds the number of keys alive at
 `now` plus the one just used -/
 theorem entries_alive (c : Cache K V) (k : K) (d : V) (now : Nat) (h : Inv c now) :
     ∀ e ∈ (entryOrInsert c k d now).1.entries, e.1 = k ∨ (e ∈ c.entries ∧ alive c.ttl now e.2.2 = true) := by
-  sorry
+  intro e he
+  rw [entry_char c k d now h] at he
+  rcases List.mem_append.1 he with he | he
+  · have hm := (List.mem_filter.1 he).1
+    exact Or.inr ⟨(removeExpired_sublist c now).subset hm, removeExpired_alive c now h e hm⟩
+  · simp only [List.mem_singleton] at he
+    subst he
+    exact Or.inl rfl
 
 end CoapLite.Lru
